@@ -559,6 +559,7 @@ class Runner:
             if pup.name != st.name:
                 raise Violation("wiring_mismatch", "%s started as %r, expected %r" % (st.label(), pup.name, st.name))
             sim.ev("hello", st.label())
+            self.check_signals(st)
             self.on_hello(st)
         elif r[0] in ("zombie", "gone"):
             sim.children[pid] = {"kind": "dead"}
@@ -579,6 +580,18 @@ class Runner:
 
     def pup_did_not_start(self, st):
         raise Violation("stage_not_started", "%s never executed its program" % st.label())
+
+    def check_signals(self, st):
+        """a started program has the default disposition for the signals a pipeline relies on
+        (an ignored SIGPIPE would keep an upstream writer alive for ever) and none of them blocked"""
+        sig = st.pup.hello.get("sig", {})
+        for num, name in (("13", "SIGPIPE"), ("2", "SIGINT"), ("15", "SIGTERM"), ("20", "SIGTSTP"), ("3", "SIGQUIT")):
+            if sig.get(num) not in (None, "dfl"):
+                raise Violation("signal_disposition", "%s was started with %s %s" % (
+                    st.label(), name, {"ign": "ignored", "handler": "handled"}.get(sig.get(num), sig.get(num))))
+        blocked = [b for b in sig.get("blocked", []) if b in (2, 13, 15, 17, 20)]
+        if blocked:
+            raise Violation("signal_disposition", "%s was started with signals %s blocked" % (st.label(), blocked))
 
     def wire_stage(self, st):
         """what descriptors 0/1/2 of the stage should be (subclasses add redirections)"""
